@@ -20,6 +20,8 @@ PID = 'C12'
 CHECKS = ['facet_mesh', 'incidence_triples', 'shape', 'row_order', 'normals', 'areas', 'cell_volumes',
           'wf_mesh', 'oriented_conforming', 'cells_meet_in_faces', 'cells_outward',
           'model_structure', 'model_opposite_signs', 'model_div_area', 'model_div_volume']
+# baseline face tables (last successful translation of the registered tree): C10's committed copy, else ours
+BASELINES = [lib.COQ / 'C10' / 'gen_baseline' / 'FaceTables.v', lib.COQ / 'C12' / 'baseline' / 'FaceTables.v.txt']
 HEADER = ['From Coq Require Import List ZArith Bool Arith.', 'Import ListNotations.',
           'From FV.C10 Require Import Model Corr.', 'From FV.C12 Require Import Model Corr.',
           'Open Scope Z_scope.', 'Set Printing Width 100000.', 'Set Printing Depth 100000.']
@@ -262,9 +264,14 @@ API_MOVES = [
 ]
 
 
-def gen_cases(ctx):
+def gen_cases(ctx, widened=False):
+    """widened: the face tables could not be re-translated from the tree under test, the committed baseline
+    tables are the hand model of that region -> thorough-style case count in the quick tier and a stream of
+    single cells (every face of the table is then a facet in table orientation, compared exactly)"""
     rng = ctx.rng
     n = 60 if ctx.tier == 'quick' else 1200
+    if widened and ctx.tier == 'quick':
+        n = 150
     cases = []
     # mixed tet+hex collections are outside the quantifier (no conforming tet-hex interface exists) and
     # calculate_normal_incidence_matrix raises on them with numpy >= 1.24 (ragged np.array in
@@ -302,12 +309,17 @@ def gen_cases(ctx):
                 c['scale'] = list(sc)
                 c['meta'] = dict(c['meta'], scale='%d/%d' % sc)
         cases.append(c)
+    # single cells = face-table probes through the public API: the facet mesh of one cell is the table
+    # applied to its row (np.unique row order), node order and orientation compared exactly by check_facets
     for kind in ['hex', 'tet']:
-        for aff in c10_gen.AFFINE[:3]:
-            m = c10_gen.gen_mesh(rng, kind=kind, dims=(1, 1, 1), affine=aff)
-            cases.append({'nodes': m['nodes'], 'blocks': m['blocks'], 'meta': m['meta'], 'valid': True})
+        for aff in (c10_gen.AFFINE if widened else c10_gen.AFFINE[:3]):
+            for rep in range(3 if widened else 1):
+                kw = {'id_mode': ['sparse', 'large', 'huge'][rep]} if widened else {}
+                m = c10_gen.gen_mesh(rng, kind=kind, dims=(1, 1, 1), affine=aff, **kw)
+                m['meta']['single_cell'] = True
+                cases.append({'nodes': m['nodes'], 'blocks': m['blocks'], 'meta': m['meta'], 'valid': True})
     # same-object stream: compute, move the mesh in place, compute again on the SAME object
-    for k in range(20 if ctx.tier == 'quick' else 200):
+    for k in range((40 if widened else 20) if ctx.tier == 'quick' else 200):
         m = c10_gen.gen_mesh(rng, kind=kinds[k % 2], dims=rng.choice([(2, 1, 1), (2, 2, 1), (2, 2, 2)]),
                              warp=rng.choice([None, 'frustum']), max_elems=16)
         c = {'nodes': m['nodes'], 'blocks': m['blocks'], 'meta': m['meta'], 'valid': True}
@@ -355,7 +367,7 @@ def gen_cases(ctx):
         c['meta'] = dict(c['meta'], same_object=c['move']['kind'])
         cases.append(c)
     # second stream: one inverted element — model and implementation must still agree
-    for k in range(6 if ctx.tier == 'quick' else 60):
+    for k in range((12 if widened else 6) if ctx.tier == 'quick' else 60):
         m = c10_gen.gen_mesh(rng, kind=kinds[k % 2], dims=(2, 2, 1), invert_one=True)
         m['meta']['malformed'] = 'inverted_element'
         cases.append({'nodes': m['nodes'], 'blocks': m['blocks'], 'meta': m['meta'], 'valid': False})
@@ -494,26 +506,49 @@ def main(ctx):
         'normals compared as unit vectors along the exact area vector within 2^-40',
         'cells are tet or hex (first order)',
     ]
+    # translate (T).  A region the translator cannot read is not by itself a violation (BUILDERS_R5 policy):
+    # the committed baseline tables become the hand model of that region (tie H), the theorems are checked
+    # about them, and the correspondence is widened; only a disagreement / a failing input is a violation.
     tie_ok = True
+    gen_file = lib.COQ / 'C10' / 'gen' / 'FaceTables.v'
     try:
         tr, consumed = c10_tables.translate(str(lib.REPO))
         ctx.sources = consumed
-        lib.write_if_changed(lib.COQ / 'C10' / 'gen' / 'FaceTables.v', c10_tables.emit(tr))
-    except (c10_tables.TranslateError, SyntaxError, OSError) as e:
+        lib.write_if_changed(gen_file, c10_tables.emit(tr))
+        ctx.notes['tie_tables'] = 'T (face tables re-translated from the tree under test)'
+    except (c10_tables.TranslateError, SyntaxError, OSError, RecursionError, ValueError, KeyError, TypeError,
+            AttributeError, IndexError) as e:
         tie_ok = False
-        ctx.notes['translator_error'] = str(e)
+        ctx.notes['translator_error'] = '%s: %s' % (type(e).__name__, e)
+        ctx.log('translator could not read the face tables:', e, '-> baseline tables + widened correspondence')
+        try:
+            ctx.sources = c10_tables.region_hashes(str(lib.REPO))
+        except Exception:          # noqa
+            pass
+    fallback = False
+    if not tie_ok:
+        for baseline in BASELINES:
+            if baseline.exists():
+                lib.write_if_changed(gen_file, baseline.read_text())
+                ctx.notes['baseline_tables'] = str(baseline.relative_to(lib.VERIF))
+                fallback = True
+                break
     proof_ok = False
-    if tie_ok:
+    if tie_ok or fallback:
         proof_ok, log = ctx.build_props('C12/Props.v', extra_targets=['C12/Corr.vo'],
                                         scan_dirs=[lib.COQ / 'C12', lib.COQ / 'C10'])
         proof_ok = c10.fix_obligations(ctx) and bool(ctx.obligations)
         if not proof_ok:
             ctx.notes['build_log_tail'] = log[-1500:]
+        if fallback:
+            for o in ctx.obligations:
+                o['note'] = ((o.get('note') or '') + ' [about the baseline face tables: the translator could not '
+                             'read the tree under test]').strip()
     else:
         for n in lib.theorem_names(lib.COQ / 'C12' / 'Props.v'):
             ctx.obligations.append({'name': n, 'discharged': False, 'assumptions': [],
-                                    'note': 'translator failed closed'})
-    model_ok, _, _ = lib.coq_make(['C12/Corr.vo']) if tie_ok else (False, '', 0)
+                                    'note': 'translator failed closed, no baseline'})
+    model_ok, _, _ = lib.coq_make(['C12/Corr.vo']) if (tie_ok or fallback) else (False, '', 0)
 
     cases = []
     cdir = lib.VERIF / 'corpus' / PID
@@ -521,7 +556,7 @@ def main(ctx):
         c = json.loads(p.read_text())
         c['meta'] = dict(c.get('meta', {}), corpus=p.name)
         cases.append(c)
-    cases += gen_cases(ctx)
+    cases += gen_cases(ctx, widened=fallback)
     for i, c in enumerate(cases):
         c['id'] = i
         c.setdefault('valid', True)
@@ -540,6 +575,8 @@ def main(ctx):
         ctx.count('ids:' + str(meta.get('id_mode')))
         ctx.count('affine:' + str(meta.get('affine')))
         ctx.count('stream:' + ('valid' if c['valid'] else meta.get('malformed', 'invalid')))
+        if meta.get('single_cell'):
+            ctx.count('single_cell_table_probe:' + str(meta.get('kind')))
         inc = res[c['id']].get('incidence')
         ok = inc is not None and not c10.is_err(inc)
         n_int = 0
@@ -605,11 +642,27 @@ def main(ctx):
                       {'failing_checks': chks, 'impl_error': inc if c10.is_err(inc) else None},
                       'correspondence C12 (Corr.v checks ' + what + ')', found_input=False,
                       signature=signature(c, what), what='model and implementation disagree: ' + what)
-    if not tie_ok and not oracle_bad:
+    if fallback:
+        n_corr = ctx.corr.get('cases', 0)
+        n_single = sum(1 for c in cases if c['meta'].get('single_cell'))
+        agree = not oracle_bad and not failing and proof_ok and model_ok
+        ctx.notes['tie_tables'] = ('H (translator could not read femio/graph_processor.py face tables: %s; baseline '
+                                   'model %s + widened correspondence, %d cases of which %d single-cell table probes: '
+                                   '%s)' % (ctx.notes.get('translator_error'), ctx.notes.get('baseline_tables'),
+                                            n_corr, n_single, 'all agree' if agree else 'DISAGREEMENT'))
+        ctx.trusted.append('baseline face tables (%s) as the hand model of _generate_all_faces: the translator could '
+                           'not read that region of the tree under test; tied by the widened correspondence only'
+                           % ctx.notes.get('baseline_tables'))
+        if not model_ok and not oracle_bad:
+            ctx.violation('tie-broken', {'translator_error': ctx.notes.get('translator_error')},
+                          'baseline model builds so that the widened correspondence can run', 'it does not build',
+                          'translator c10_tables + baseline tables', found_input=False,
+                          signature={'kind': 'tie-broken'})
+    if not tie_ok and not fallback and not oracle_bad:
         ctx.violation('tie-broken', {'translator_error': ctx.notes.get('translator_error')},
-                      'translator accepts _generate_all_faces', 'fail-closed', 'translator c10_tables',
-                      found_input=False, signature={'kind': 'tie-broken'})
-    if tie_ok and not proof_ok and not oracle_bad:
+                      'translator accepts _generate_all_faces', 'fail-closed, no baseline tables',
+                      'translator c10_tables', found_input=False, signature={'kind': 'tie-broken'})
+    if (tie_ok or (fallback and model_ok)) and not proof_ok and not oracle_bad:
         badn = [o['name'] for o in ctx.obligations if not o['discharged']]
         ctx.violation('proof-broken', {'undischarged': badn, 'log': ctx.notes.get('build_log_tail', '')[-600:]},
                       'all theorems of C12/Props.v check against the regenerated tables', 'do not check',
